@@ -241,6 +241,7 @@ type CallGraph struct {
 	Callees map[*ssa.Function][]*ssa.Function
 	Callers map[*ssa.Function][]CallSite
 	GoTargs map[*ssa.Function][]*ssa.Function
+	byName  map[string][]*ssa.Function
 }
 
 func BuildCallGraph(p *Prog) *CallGraph {
@@ -252,7 +253,28 @@ func BuildCallGraph(p *Prog) *CallGraph {
 			byName[f.Name()] = append(byName[f.Name()], f)
 		}
 	}
+	g.byName = byName
 	for _, f := range p.Funcs {
+		g.addFunc(f, true)
+	}
+	return g
+}
+
+// AddView makes an inlined view (inline.go) a node of the graph: its callees are the calls left in it plus everything its
+// original calls (the inlined callees still "run" as part of it). Call sites of views are not recorded as callers.
+func (g *CallGraph) AddView(v *ssa.Function) {
+	if _, ok := g.Callees[v]; ok || origFn(v) == v {
+		return
+	}
+	g.addFunc(v, false)
+	o := origFn(v)
+	g.Callees[v] = append(g.Callees[v], g.Callees[o]...)
+	g.GoTargs[v] = append(g.GoTargs[v], g.GoTargs[o]...)
+}
+
+func (g *CallGraph) addFunc(f *ssa.Function, recordCallers bool) {
+	p, byName := g.p, g.byName
+	{
 		for _, cs := range callsIn(f, false) {
 			var targets []*ssa.Function
 			if t := staticTarget(cs.Common); t != nil {
@@ -275,7 +297,9 @@ func BuildCallGraph(p *Prog) *CallGraph {
 				} else {
 					g.Callees[f] = append(g.Callees[f], t)
 				}
-				g.Callers[t] = append(g.Callers[t], cs)
+				if recordCallers {
+					g.Callers[t] = append(g.Callers[t], cs)
+				}
 			}
 		}
 		// a closure created in f and passed elsewhere (not called directly) is conservatively a callee of f
@@ -296,7 +320,6 @@ func BuildCallGraph(p *Prog) *CallGraph {
 			}
 		}
 	}
-	return g
 }
 
 // Reach: functions reachable from roots through synchronous calls (go targets excluded unless withGo).
